@@ -31,10 +31,22 @@ fl.append("**Repaired (`fix:` commits)**")
 for x in kf["fixed"]:
     fl.append("* " + (x if len(x) <= 300 else x[:297] + "…"))
 findings = "\n".join(fl)
-srows = ["| seeded change | breaks | needs to manifest | caught by |", "|---|---|---|---|"]
+srows = ["| seeded change | breaks | needs to manifest | caught by | first run |", "|---|---|---|---|---|"]
+nseed = nfirst = 0
 for d in sorted(glob.glob("seeded/*/meta.json")):
     m = json.load(open(d))
-    srows.append(f"| `{m['name']}` | {m['breaks_property']} | {m.get('needs_to_manifest', 'see NOTES.md')} | {', '.join(m.get('caught_by', [])) or '**not caught yet**'} |")
+    nseed += 1
+    er = m.get("earlier_runs") or []
+    if er:
+        first = ", ".join(er[0].get("caught_by") or []) or "missed; check strengthened"
+    else:
+        first = "caught" if m.get("caught_by") else "missed"
+    if first == "caught" or (er and er[0].get("caught_by")):
+        nfirst += 1
+    note = " (patch obsolete, see meta.json)" if m.get("obsolete") else ""
+    srows.append(f"| `{m['name']}`{note} | {m['breaks_property']} | {m.get('needs_to_manifest', 'see NOTES.md')} | {', '.join(m.get('caught_by', [])) or '**not caught yet**'} | {first} |")
+srows.append("")
+srows.append(f"{nseed} seeded changes; {nfirst} caught by the checks as they stood when the change arrived, the others after the strengthening recorded in `meta.json`.")
 seeded = "\n".join(srows)
 def wc(pat):
     n = 0
